@@ -2592,8 +2592,12 @@ pub fn sum() -> impl Function {
             data_type::Integer::full(),
             |values| values.into_iter().map(|f| *f).sum::<i64>().into(),
             |(intervals, size)| {
+                // the elements of one list may come from different intervals of the set: use the hull
                 Ok(data_type::Integer::try_from(multiply().super_image(
-                    &DataType::structured_from_data_types([intervals.into(), size.into()]),
+                    &DataType::structured_from_data_types([
+                        intervals.into_interval().into(),
+                        size.into(),
+                    ]),
                 )?)?)
             },
         ),
@@ -2602,8 +2606,12 @@ pub fn sum() -> impl Function {
             data_type::Float::full(),
             |values| values.into_iter().map(|f| *f).sum::<f64>().into(),
             |(intervals, size)| {
+                // the elements of one list may come from different intervals of the set: use the hull
                 Ok(data_type::Float::try_from(multiply().super_image(
-                    &DataType::structured_from_data_types([intervals.into(), size.into()]),
+                    &DataType::structured_from_data_types([
+                        intervals.into_interval().into(),
+                        size.into(),
+                    ]),
                 )?)?)
             },
         ),
